@@ -32,6 +32,9 @@ type c09Case struct {
 	OutOpt string   `json:"out"` // "", "out", "x/y"
 	PkgOpt bool     `json:"pkg"` // pass -p with the correct path (only meaningful without -o)
 	File   string   `json:"file"`
+	// Pre, when set: the same file was generated from before, with these flags,
+	// into the same output directory (regeneration over existing output)
+	Pre []string `json:"pre,omitempty"`
 }
 
 type c09Gen struct{}
@@ -94,6 +97,23 @@ func drawC09(t *rapid.T) c09Case {
 	c.OutOpt = rapid.SampledFrom([]string{"", "", "out", "x/y"}).Draw(t, "outOpt")
 	c.PkgOpt = rapid.IntRange(0, 3).Draw(t, "pkgOpt") == 0
 	c.File = rapid.SampledFrom([]string{"g.bnf", "g.bnf", "grammar.txt", "g"}).Draw(t, "fileName")
+	if c.Arm != "C" && rapid.IntRange(0, 4).Draw(t, "regenerate") == 0 {
+		// the usual workflow: the output directory holds what an earlier run
+		// wrote (here: the same grammar with the debug flags on and the other
+		// table encoding, i.e. mostly larger files)
+		for _, f := range c.Flags {
+			if f == "-a" || f == "-no_lexer" {
+				c.Pre = append(c.Pre, f)
+			}
+		}
+		if !has(c.Flags, "-no_lexer") {
+			c.Pre = append(c.Pre, "-debug_lexer")
+		}
+		c.Pre = append(c.Pre, "-debug_parser")
+		if !has(c.Flags, "-zip") {
+			c.Pre = append(c.Pre, "-zip")
+		}
+	}
 	return c
 }
 
@@ -142,6 +162,10 @@ func c09RunOne(env *ex.Env, mod, name string, c c09Case) *c09Result {
 		args = append(args, "-p", "vb/"+name)
 	}
 	args = append(args, c.File)
+	if len(c.Pre) > 0 {
+		pre := append(append([]string{}, c.Pre...), args[len(c.Flags):]...)
+		env.Run(d, nil, pre...) // whatever it does: the run under test comes next
+	}
 	r.res = env.Run(d, nil, args...)
 	if r.res.CPULimit {
 		// once more with doubled limits before it counts
@@ -277,6 +301,13 @@ func c09Shrink(env *ex.Env, mod string, c c09Case, problem string) (c09Case, str
 		cc.Src = src
 		p := c09Check(env, mod, "shrink", cc)
 		return p != "" && problemSig(p) == kind, p
+	}
+	if len(c.Pre) > 0 {
+		cc := c
+		cc.Pre = nil
+		if p := c09Check(env, mod, "shrink", cc); p != "" && problemSig(p) == kind {
+			c, problem = cc, p
+		}
 	}
 	// drop flags first
 	for _, f := range append([]string{}, c.Flags...) {
@@ -442,6 +473,9 @@ func runC09(c *check, replay string) int {
 	for i, r := range results {
 		m.evals++
 		m.classes["arm_"+r.c.Arm]++
+		if len(r.c.Pre) > 0 {
+			m.classes["regenerated_over_existing_output"]++
+		}
 		if r.exit0 {
 			m.classes["exit0"]++
 			m.classes["exit0_arm_"+r.c.Arm]++
@@ -574,4 +608,4 @@ func sigOf(p string) string {
 	return ""
 }
 
-const c09Rule = "case = grammar source text + flags (-a -zip -no_lexer -debug_lexer -debug_parser -v subsets) + output directory (absent, out, x/y) + -p (absent/correct) + file name; four arms: A well-formed grammars with hostile spellings (string literals with quotes, backticks, backslashes, $, %, {{, */, non-ASCII, tabs; Unicode/inner-! names; valid-Go actions with raw strings, comparison operators, $ inside Go strings, comments, format verbs; multi-import headers), B pattern shapes aimed at the item-set worklists (nested nullable repetitions/options, deep groups, long alternations, regdef chains), C byte/word mutations of grammars without any << >>, D plain well-formed lexical and combined grammars (Unicode edge characters incl. NUL in patterns). Oracles: the child ends within a CPU-time limit (re-run once with the limit doubled); on status 0 every package the configuration calls for exists and no file is empty; `go build` of everything written succeeds. Failures are grouped and shrunk by delta debugging over the source text. The quick tier compiles a bounded number of the status-0 outputs (hostile spellings first). Non-trivial and distinct: distinct (source, flags, output option) with exit status 0 whose output was compiled, plus arm B cases (termination on nested nullable shapes) with exit status 0."
+const c09Rule = "case = grammar source text + flags (-a -zip -no_lexer -debug_lexer -debug_parser -v subsets) + output directory (absent, out, x/y) + -p (absent/correct) + file name; one well-formed case in five is a REgeneration (the output directory holds what the same grammar gave with the debug flags on and the other table encoding); four arms: A well-formed grammars with hostile spellings (string literals with quotes, backticks, backslashes, $, %, {{, */, non-ASCII, tabs; Unicode/inner-! names; valid-Go actions with raw strings, comparison operators, $ inside Go strings, comments, format verbs; multi-import headers), B pattern shapes aimed at the item-set worklists (nested nullable repetitions/options, deep groups, long alternations, regdef chains), C byte/word mutations of grammars without any << >>, D plain well-formed lexical and combined grammars (Unicode edge characters incl. NUL in patterns). Oracles: the child ends within a CPU-time limit (re-run once with the limit doubled); on status 0 every package the configuration calls for exists and no file is empty; `go build` of everything written succeeds. Failures are grouped and shrunk by delta debugging over the source text. The quick tier compiles a bounded number of the status-0 outputs (hostile spellings first). Non-trivial and distinct: distinct (source, flags, output option) with exit status 0 whose output was compiled, plus arm B cases (termination on nested nullable shapes) with exit status 0."
